@@ -214,7 +214,7 @@ class C10(Check):
         quick = tier == "quick"
         self.stats10 = dict(graphs=0, layer1_compared=0, layer1_unsupported=0, streams_equal=0, streams_differ=0,
                             loads=0, fresh_loads=0, deep_chains=0)
-        for gi in range(60 if quick else 1500):
+        for gi in range(120 if quick else 1500):
             lines, outs = self.build(rng, real, big=(gi % 5 == 0))
             inner = real.inner
             if rng.random() < 0.4:
